@@ -55,6 +55,7 @@ type formatFMP4Track struct {
 	startInitialized bool
 	startDTS         time.Duration
 	startNTP         time.Time
+	waitingSync      bool
 }
 
 func (t *formatFMP4Track) initialize() {
@@ -124,7 +125,17 @@ func (t *formatFMP4Track) write(sample *formatFMP4Sample) error {
 		t.f.nextSegmentNumber++
 	} else if (dts - t.f.currentSegment.startDTS) < 0 { // BaseTime is negative, this is not supported by fMP4
 		t.f.ri.Log(logger.Warn, "sample of track %d received too late, discarding", t.initTrack.ID)
+		// the following samples of a video track cannot be decoded without the discarded one,
+		// discard them too until the next random access sample.
+		t.waitingSync = t.initTrack.Codec.IsVideo()
 		return nil
+	}
+
+	if t.waitingSync {
+		if sample.IsNonSyncSample {
+			return nil
+		}
+		t.waitingSync = false
 	}
 
 	err := t.f.currentSegment.write(t, sample, dts)
